@@ -44,6 +44,12 @@ let handle cmd args =
                        | [k; v] -> m := { !m with m_headers = set_header (!m).m_headers (unhex k) (unhex v) }; "S"
                        | _ -> "?")
              | 'W' -> let (b, m') = message_write !m in m := m'; "W" ^ hex b
+             | 'B' -> (match get_body !m with BOk b -> "B" ^ hex b | BNull -> "BN" | BFuel -> "BFUEL")
+             | 'A' -> (match get_attachments !m with
+                       | AErr -> "AN" | AFuel -> "AFUEL"
+                       | AOk l -> "A" ^ string_of_int (List.length l) ^ String.concat "" (List.map (fun a ->
+                             let (b, _) = message_write a in
+                             "," ^ hex b ^ ";" ^ (match get_body a with BOk b -> hex b | BNull -> "N" | BFuel -> "FUEL")) l))
              | _ -> "?") ops in
            String.concat " " out)
   | _ -> "ERR unknown command " ^ cmd
